@@ -284,7 +284,14 @@ fn run_scalar(ctx: &Ctx) -> Report {
         } else {
             let m = *rng.pick(&[1e-3, 1.0, 1e6, 1e9]);
             let sign = if rng.chance(0.3) { -1.0 } else { 1.0 };
-            BandGen::new(BAND_REGIMES[(idx / 3) % BAND_REGIMES.len()], m, rng.u64()).take(len).into_iter().map(|x| sign * x).collect()
+            // one band stream in 16 is quoted in a unit so small that prices straddle the smallest normal
+            // number (2^-1024 or 2^-1028 per unit: 70 or more subnormal steps of slack at the stated τ·M)
+            let tiny = (idx / 45) % 16 == 7;
+            let (m, unit) = if tiny { (1.0, if (idx / 720) % 2 == 0 { 2f64.powi(-1024) } else { 2f64.powi(-1028) }) } else { (m, 1.0) };
+            if tiny {
+                rep.count("scalar.streams_around_the_smallest_normal_number");
+            }
+            BandGen::new(BAND_REGIMES[(idx / 3) % BAND_REGIMES.len()], m, rng.u64()).take(len).into_iter().map(|x| sign * x * unit).collect()
         };
         rep.count(&format!("scalar.family.{}", if idx % 3 != 2 { format!("{:?}", RAND_KINDS[(idx / 3) % RAND_KINDS.len()]) } else { "band".into() }));
         let inputs: Vec<In> = xs.iter().map(|x| In::S(*x)).collect();
